@@ -162,7 +162,7 @@ def generate(stage, family, plan_name, tier, prelude, fixed_deps):
     units = mod.plan(plan_name, tier)
     nrows = sum(len(u['rows']) for u in units)
     per = ROWS_PER_SHARD['ctor' if family == 'ctor' else plan_name]
-    nshards = max(1, min(64, (nrows + per - 1) // per))
+    nshards = max(1, min(32, (nrows + per - 1) // per))  # all shards of a stage compile concurrently: bound the memory
     shards = pack(units, nshards)
     prelude = '// generated by gen/%s.py for stage %s (%s tier); fixed parts %s\n' % (mod.__name__.split('.')[-1], stage.name, tier, _dep_stamp(fixed_deps)) + prelude
     cmd, flags = stage.cmd, [f for f in stage.flags]
